@@ -124,6 +124,19 @@ def handleSobs (c : Line) (l : Line) : IO Unit := do
       let ts := terms.map fun (t, rm) => (t, rm.getD i false)
       if Spec.Expr.denote conn ts probe then '1' else '0'
     IO.println s!"spec {l.id} den=ok:{String.ofList bits}"
+  else if kind == "fixed" then
+    -- key@(v1 v2 …) with bare words: must parse, keep exactly the listed values, project the value
+    let key := (c.bytes? "key").getD []
+    let vals := (c.hexList? "vals").getD []
+    let other := (c.bytes? "other").getD []
+    let hasSpace := (c.getD "sp" "-") != "-" || key.any Spec.Expr.asciiSpace || vals.any (·.any Spec.Expr.asciiSpace)
+    let safe := Spec.Expr.bareSafeProj hasSpace key && Spec.Expr.usableKey key && !vals.isEmpty &&
+      vals.all (Spec.Expr.bareSafeProj hasSpace) && !vals.contains other
+    if safe then
+      let ones := String.ofList (vals.map fun _ => '1')
+      IO.println s!"spec {l.id} fx=ok:{ones}:0:{(vals.headD []).toHex}"
+    else
+      IO.println s!"spec {l.id} fx={l.getD "fx"}"
   else if kind == "bare" then
     let w := (c.bytes? "w").getD []
     let hasSpace := w.any Spec.Expr.asciiSpace || (c.getD "sp" "-") != "-"
